@@ -137,17 +137,14 @@ pub fn expected(c: &Circuit) -> Result<(Vec<ESig>, Vec<(String, String)>), &'sta
             sigs.push(ESig { name, bits: bits(p), typ: 'O', default: None });
         }
     }
-    // tests: a test whose label entry is empty, or whose source is empty, is not a test
+    // tests: every Testcase keeps its label and source verbatim — an empty label is the label "", an empty source is
+    // the source "" (which then has no header: the file is refused as a whole)
     let mut tests: Vec<(String, String)> = vec![];
     for t in &c.tests {
         let name = match &t.label {
             None => "(unnamed)".to_string(),
-            Some(l) if l.is_empty() => continue,
             Some(l) => l.clone(),
         };
-        if t.source.is_empty() {
-            continue;
-        }
         tests.push((name, t.source.clone()));
     }
     // header names
